@@ -256,7 +256,7 @@ def contracts():
 
 ASSUMPTIONS = [
     "callee contracts: resolve_ref (pure; returns the dependencies of a reference for the given recursion flag), Parameters._setup_refs (installs one watcher per source owner for the given dependencies), unwatch/cancel recorded as ghost events",
-    "propagation (_sync_refs), construction-time linking (_setup_params) and reference kinds (bind, depends, rx, nested containers) are covered by the bounded layer only",
+    "propagation: `_sync_refs` is proved for objects with two and three links and one event (one dependency per link, arbitrary owners, names, values; a reference may raise or return Skip); asynchronous references, several events at once and reference kinds (bind, depends, rx, nested containers: `resolve_ref`/`resolve_value` are callee contracts here) are covered by the bounded layer only",
 ]
 
 
@@ -621,3 +621,132 @@ print('NOT-REPRODUCED'); sys.exit(0)
 '''
 
 PROBES = PROBES + [("instance-level nested_refs and temporary references in update contexts", NESTED_AND_TEMP_REPLAY)]
+
+
+# ---------------------------------------------------------------------------------------------
+# Parameters._sync_refs — one source change is delivered to EVERY link that depends on it
+# (two links on one object; dependencies, values and events arbitrary)
+# ---------------------------------------------------------------------------------------------
+def sync_refs_contract(n_links=2):
+    """`_sync_refs(event)` on an object with n links: `update` is called exactly once, with exactly the
+    links whose dependencies contain the changed (owner, name) and whose reference yields a value —
+    a reference that yields nothing (Skip raised or returned, Undefined) only leaves ITS link alone."""
+    holder = {}
+    hit_f = z3.Function("depends_on_event", vm.V, vm.V, z3.BoolSort())   # (deps, event)
+    val_f = z3.Function("resolve_value_of", vm.V, vm.V)
+    skips_f = z3.Function("reference_raises_Skip", vm.V, z3.BoolSort())
+
+    def configure(I):
+        I.sym_fields = {"nested_refs", "owner", "name", "obj"}
+
+        def getitem(I, st, fv, args, kwargs, ctx):
+            p = param_of(I.term(args[0]))
+            I.U.well_typed(p)
+            return [(st, Sym(p))]
+        I.contracts["Parameters.__getitem__"] = getitem
+
+        def resolve_ref(I, st, fv, args, kwargs, ctx):
+            # some dependencies: one symbolic dependency per link (owner / name arbitrary)
+            d = Sym(I.U.fresh("dep"))
+            st.ghost["deps"] = st.ghost.get("deps", []) + [(I.term(args[0]), d.t)]
+            flag = args[1] if len(args) > 1 else kwargs.get("recursive", Conc(False))
+            st.ghost["flags"] = st.ghost.get("flags", []) + [(I.term(args[0]), I.term(flag))]
+            return [(st, I.make_list(st, [d]))]
+        I.contracts["resolve_ref"] = resolve_ref
+
+        def resolve_value(I, st, fv, args, kwargs, ctx):
+            r = I.term(args[0])
+            v = val_f(r)
+            I.U.well_typed(v)
+            flag = args[1] if len(args) > 1 else kwargs.get("recursive", Conc(False))
+            st.ghost["flags"] = st.ghost.get("flags", []) + [(r, I.term(flag))]
+            out = []
+            for (q, b) in I.branch(st, skips_f(r)):
+                out.append((q, Raise("Skip", origin="reference")) if b else (q, Sym(v)))
+            return out
+        I.contracts["resolve_value"] = resolve_value
+        I.lib["inspect.isgeneratorfunction"] = lambda I, st, fv, args, kwargs, ctx: [(st, Conc(False))]
+        I.contracts["iscoroutinefunction"] = lambda I, st, fv, args, kwargs, ctx: [(st, Conc(False))]
+
+        def update(I, st, fv, args, kwargs, ctx):
+            st.ghost["updates"] = st.ghost.get("updates", []) + [args[0]]
+            q = st.fork()
+            return [(st, Conc(None)), (q, Raise("$User", origin="update"))]
+        I.contracts["Parameters.update"] = update
+
+        def mgr(name):
+            # the two managers around the update are verified by their own contracts (C14, C08/_syncing):
+            # here they are scopes that run their body
+            def h(I, s, item, fv, ce, st, ctx):
+                st.ghost["managers"] = st.ghost.get("managers", []) + [name]
+                return I.exec_block(s.body, st, ctx)
+            return h
+        I.contracts["with:edit_constant"] = mgr("edit_constant")
+        I.contracts["with:_syncing"] = mgr("_syncing")
+
+    def setup(I, st):
+        U = I.U
+        W = dm.World(I, st, initialized=Conc(True))
+        holder["W"] = W
+        ph = st.heap[W.private.oid]
+        refs = I.alloc_dict(st)
+        rs = []
+        for k in range(n_links):
+            r = Sym(U.fresh("ref%d" % k))
+            rs.append(r)
+            I.dict_store(st, refs, Conc("p%d" % k), r)
+        ph.fields["refs"] = refs
+        ph.init["refs"] = refs
+        ev = Sym(U.fresh("event"))
+        st.pc.append(vm.ty(z3.Select(sym_field(I, st, "name"), ev.t)) == vm.TAG["str"])
+        fv = I.bound_method(W.param, I.src.find_method("Parameters", "_sync_refs"))
+        return fv, [ev], {}, {"refs": rs, "event": ev, "symbols": {}}
+
+    def post(I, info, st, oc):
+        U = I.U
+        ups = st.ghost.get("updates", [])
+        out = []
+        if isinstance(oc, Raise):
+            out.append(("only an exception of the update itself escapes (a reference that yields nothing does not abort the sync)",
+                        z3.BoolVal(oc.cls == "$User")))
+            return out
+        out.append(("update called exactly once", z3.BoolVal(len(ups) == 1)))
+        if len(ups) != 1:
+            return out
+        d = I.known_dict(st, ups[0])
+        if d is None:
+            return out + [("update receives a mapping of link names", z3.BoolVal(False))]
+        owner, name, obj = sym_field(I, st, "owner"), sym_field(I, st, "name"), sym_field(I, st, "obj")
+        nested = sym_field(I, st, "nested_refs")
+        ev = info["event"].t
+        deps = dict((str(r), (r, d_)) for (r, d_) in st.ghost.get("deps", []))
+        for k, r in enumerate(info["refs"]):
+            key = "p%d" % k
+            if str(r.t) not in deps:
+                out.append(("the dependencies of link %d are looked up" % k, z3.BoolVal(False)))
+                continue
+            dep = deps[str(r.t)][1]
+            hit = z3.And(z3.Select(owner, dep) == z3.Select(obj, ev),
+                         U.py_eq(z3.Select(name, dep), z3.Select(name, ev)))
+            yields = z3.And(z3.Not(skips_f(r.t)), val_f(r.t) != U.cls_const("Skip"), val_f(r.t) != U.UNDEF)
+            out.append(("link %d is delivered <=> it depends on the changed parameter and its reference yields a value "
+                        "(whatever the other link's reference does)" % k, z3.BoolVal(key in d) == z3.And(hit, yields)))
+            if key in d:
+                out.append(("link %d receives what its reference resolves to" % k, I.term(d[key]) == val_f(r.t)))
+        for (r, fl) in st.ghost.get("flags", []):
+            for k, rr in enumerate(info["refs"]):
+                if str(rr.t) == str(r):
+                    out.append(("link %d is resolved with that parameter's own nested_refs flag" % k,
+                                fl == z3.Select(nested, param_of(U.lit("p%d" % k)))))
+        out.append(("nothing but the links is updated", z3.BoolVal(set(d) <= {"p%d" % k for k in range(n_links)})))
+        out.append(("the update runs inside edit_constant and _syncing", z3.BoolVal(st.ghost.get("managers") == ["edit_constant", "_syncing"])))
+        return out
+    return FunctionContract("%s:Parameters._sync_refs" % MOD, PROP, setup, post, configure=configure,
+                            name="Parameters._sync_refs[%d links, one event]" % n_links)
+
+
+_c08_base4 = contracts
+
+
+def contracts():
+    return _c08_base4() + [sync_refs_contract(2), sync_refs_contract(3)]
